@@ -121,6 +121,7 @@ def run(rep, tier, seed):
     rep.cov["exhaustive"] = False
     for it in items[:2]:
         rep.sample({"src": it["src"], "out": it["out"]})
+    machine_level(rep, items, tier)
     for it, out, v in bad:
         delta = progs.outcome_delta(v["exp"], out)
         if it["tag"].startswith("illformed") or it["tag"] in ("skeleton-in-function", "loop-nest", "control-transfer-in-operand"):
@@ -128,6 +129,33 @@ def run(rep, tier, seed):
         else:
             sig = "random-program %s" % delta
         rep.disagree(sig, {"src": it["src"], "expected": v["exp"], "got": it["raw"]})
+
+
+def machine_level(rep, items, tier):
+    """a part of the programs again, now instruction by instruction: the real VM in lock step with the machine
+    specification (spec/VM.tla) on the code the real compiler emitted, and the machine's outcome on that code against
+    RefSem on the source (spec/VMRun.tla): the compiler is validated program by program inside TLC"""
+    from .. import vmrun, vmtrace
+    widths, _ = vmtrace.real_widths()
+    nr, ns = (250, 100) if tier == "quick" else (3000, 1000)
+    pick = [it for it in items if it["tag"] == "random"][:nr] + \
+           [it for it in items if it["tag"] in ("skeleton-in-function", "loop-nest", "control-transfer-in-operand")][::7][:ns]
+    sub = [{"id": it["id"], "prog": it["prog"], "tag": it["tag"]} for it in pick]
+    recs = vmrun.record(sub, widths, with_prog=True, max_events=2000)
+    verdicts, res = vmrun.validate(recs)
+    rep.add_tlc(res)
+    rep.cov["traces_validated_against_impl"] += len(recs)
+    counts = {}
+    for it in sub:
+        v = verdicts.get(it["id"])
+        if not v:
+            continue
+        counts[v["v"]] = counts.get(v["v"], 0) + 1
+        if v["v"] in ("diverged", "end", "refsem", "invariant"):
+            rep.disagree("machine-level %s %s" % (it["tag"], vmrun.describe(v, it["raw"])),
+                         {"src": it["src"], "verdict": v, "events": it["raw"]["trace"][max(0, v["at"] - 3):v["at"]]})
+    rep.notes["machine_level_verdicts"] = counts
+    rep.notes["machine_level_states"] = res.get("states", 0)
 
 
 def replay(rep, path):
